@@ -28,6 +28,9 @@ FAMILIES = {
     "ints": REVISIONS,
     "bytes": [["u8"], ["u8", ["farr", "byte", 3]], ["u8", ["farr", "byte", 3], ["varr", "utf8", 2]]],
     "varlen": [[["varr", "u8", 2]], [["varr", "u8", 2], "u16"], [["varr", "u8", 2], "u16", "u8"]],
+    # appended fields that are themselves appendable types (an absent nested delimiter header must read as zero)
+    "nested": [["u8"], ["u8", ["delim", ["struct", ["u8"]], 16]],
+               ["u8", ["delim", ["struct", ["u8"]], 16], ["farr", ["delim", ["struct", ["u16"]], 16], 2]]],
 }
 MIN_EXTENT = 88  # longest representation of the longest revision, padded to a byte: 8+16+8+(8+32)+8+1 -> 88
 
@@ -145,6 +148,8 @@ def _full_value(family: str, vals: typing.Sequence[typing.Any], n3: int) -> typi
     a, b, c, d, g = vals
     if family == "bytes":
         return ({"f0": a, "f1": bytes([65, 66, 67]), "f2": "hi"[:n3]}, {"f0": 0, "f1": bytes(3), "f2": ""})
+    if family == "nested":
+        return ({"f0": a, "f1": {"f0": c}, "f2": [{"f0": b}, {"f0": b}]}, {"f0": 0, "f1": {"f0": 0}, "f2": [{"f0": 0}, {"f0": 0}]})
     return ({"f0": [a, c][:n3], "f1": b, "f2": g}, {"f0": [], "f1": 0, "f2": 0})
 
 
@@ -259,7 +264,7 @@ def conditions(tier: str, seed: int) -> typing.List[Cond]:
                                              "extent %d bits; array length / union variant are scaffolding" % (8 * c)],
                                 witness={"a": 1, "b": 515, "cc": 7, "d": 40000, "g": 201, "t0": 77, "t1": 40000, "t2": 3},
                                 budget=240.0 if not thorough else 150.0, need_exhaust=True))
-    for family in ("bytes", "varlen"):
+    for family in ("bytes", "varlen", "nested"):
         nrev = len(FAMILIES[family])
         for cname in CONTAINERS:
             ps = [(i, j) for i in range(nrev) for j in range(nrev) if i != j]
@@ -270,7 +275,8 @@ def conditions(tier: str, seed: int) -> typing.List[Cond]:
                 for n3 in ((0, 1, 2) if family == "varlen" else (2,)):
                     out.append(Cond(PROP, "c14.wire-" + family, make_wire,
                                     {"container": cname, "writer": w, "reader": r, "n_objects": nobj, "n3": n3,
-                                     "variant_x": True, "c": rnd.choice([11, 12, 16]), "pin": True, "family": family},
+                                     "variant_x": True, "c": rnd.choice([11, 12, 16]) if family != "nested" else rnd.choice([19, 24]),
+                                     "pin": True, "family": family},
                                     {"a": int, "b": int, "cc": int, "d": int, "g": int, "t0": int, "t1": int, "t2": int},
                                     assumptions=["revision family %s: %s" % (family, FAMILIES[family]),
                                                  "integer leaves symbolic over their ranges (4 pinned)"],
